@@ -2,7 +2,7 @@
    suffix lookup) equals the specification; in particular "n-gram without matching suffix" is never raised. *)
 From Coq Require Import List NArith ZArith QArith Bool Lia.
 From Kenlm Require Import C05.KNDefs C05.KNSpec C05.KNModel C05.KNLex C05.KNEvents C05.KNAdjustD C05.KNAdjustE C05.KNAdjustF C05.KNNgramSet
-  C06.SumQ C06.SumProofs C06.GoodTable C06.Final C05.KNInterp.
+  C06.SumQ C06.SumProofs C06.GoodTable C06.Final C05.KNInterp C05.KNJoin.
 Import ListNotations.
 
 Lemma last_firstn_full : forall (e : gram) d, e <> [] -> last (firstn (length e) e) d = last e d.
@@ -29,6 +29,113 @@ Proof.
   destruct (filter _ (grams (events c) (S k))); [destruct Hin|simpl; lia].
 Qed.
 
+(* ---- facts about the events of a corpus that the back-off join relies on *)
+Definition inner_ok (x : N) : Prop := x <> EOS /\ x <> UNK.
+
+Lemma sent_events_tl_ok : forall s hist, Forall inner_ok hist -> Forall (fun x => (2 < x)%N) s ->
+  forall e, In e (sent_events hist s) -> Forall inner_ok (tl e).
+Proof.
+  induction s as [|w s IH]; intros hist Hh Hs e He; simpl in He.
+  - destruct He as [<-|[]]. exact Hh.
+  - inversion Hs as [|? ? Hw Hs']; subst. destruct He as [<-|He]; [exact Hh|].
+    apply (IH (w :: hist)); [|exact Hs'|exact He]. constructor; [|exact Hh]. unfold inner_ok, EOS, UNK. lia.
+Qed.
+
+Lemma events_tl_ok : forall c e, In e (events c) -> Forall inner_ok (tl e).
+Proof.
+  intros c e He. unfold events in He. apply in_flat_map in He. destruct He as [s [_ He]].
+  apply (sent_events_tl_ok (clean s) [BOS]); [|apply clean_gt2|exact He]. constructor; [|constructor]. unfold inner_ok, BOS, EOS, UNK. lia.
+Qed.
+
+Lemma sent_events_next : forall s hist e, In e (sent_events hist s) -> hd UNK e <> EOS -> exists w, In (w :: e) (sent_events hist s).
+Proof.
+  induction s as [|w s IH]; intros hist e He Hh; simpl in He.
+  - destruct He as [<-|[]]. exfalso. apply Hh. reflexivity.
+  - destruct He as [<-|He].
+    + destruct s as [|x s']; [exists EOS|exists x]; simpl; right; left; reflexivity.
+    + destruct (IH (w :: hist) e He Hh) as [x Hx]. exists x. simpl. right. exact Hx.
+Qed.
+
+Lemma events_next : forall c e, In e (events c) -> hd UNK e <> EOS -> exists w, In (w :: e) (events c).
+Proof.
+  intros c e He Hh. unfold events in *. apply in_flat_map in He. destruct He as [s [Hs He]].
+  destruct (sent_events_next _ _ _ He Hh) as [w Hw]. exists w. apply in_flat_map. exists s. tauto.
+Qed.
+
+Lemma events_first : forall c, c <> [] -> exists w, In [w; BOS] (events c).
+Proof.
+  intros c Hc. destruct c as [|s c']; [congruence|]. rewrite events_cons. destruct (clean s) as [|x t]; [exists EOS|exists x]; apply in_or_app; left; left; reflexivity.
+Qed.
+
+Section TableJoin.
+  Variable c : corpus.
+  Variable n : nat.
+  Variable o : options.
+  Hypothesis Hc : c <> [].
+  Hypothesis Hn : (1 <= n)%nat.
+  Hypothesis Hmono : thr_mono o n.
+  Let ev := events c.
+  Let tab := table n o ev.
+
+  Lemma table_sorted : forall k, (1 <= k <= n)%nat -> gsorted (map e_gram (ents tab k)).
+  Proof.
+    intros k Hk. unfold tab. rewrite (ents_table n o ev k Hk), entries_sp, map_map. cbn [sp e_gram]. rewrite map_id. unfold grams. apply sort_uniq_sorted.
+  Qed.
+
+  Lemma table_ext : forall k, (1 <= k)%nat -> (k < n)%nat -> forall e, In e (ents tab k) -> last_special (e_gram e) = false ->
+    exists e', In e' (ents tab (S k)) /\ tl (e_gram e') = e_gram e /\ (1 <= e_adj e')%N.
+  Proof.
+    intros k Hk Hkn e He Hls. destruct (In_ents c n o Hn k e Hk He) as [_ [Hg _]].
+    unfold last_special in Hls. apply orb_false_iff in Hls. destruct Hls as [Hu He']. apply N.eqb_neq in Hu. apply N.eqb_neq in He'.
+    assert (Hq : exists q, In q (grams ev (S k)) /\ tl q = e_gram e).
+    { apply In_grams in Hg. destruct Hg as [[-> [Eg|Eg]]|[e0 [He0 [Hl Eg]]]].
+      - rewrite Eg in Hu. exfalso. apply Hu. reflexivity.
+      - destruct (events_first c Hc) as [w Hw]. exists [w; BOS]. split; [|rewrite Eg; reflexivity].
+        apply In_grams. right. exists [w; BOS]. split; [exact Hw|]. split; [simpl; lia|reflexivity].
+      - assert (Hh : hd UNK e0 <> EOS).
+        { rewrite Eg in He'. destruct e0 as [|x t]; [simpl in Hl; lia|]. destruct k; [lia|]. exact He'. }
+        destruct (events_next c e0 He0 Hh) as [w Hw]. exists (firstn (S k) (w :: e0)). split.
+        + apply In_grams. right. exists (w :: e0). split; [exact Hw|]. split; [simpl; lia|reflexivity].
+        + rewrite Eg. reflexivity. }
+    destruct Hq as [q [Hq Ht]]. exists (sp n o ev (S k) q). split; [apply (ents_In c n o Hn); [lia|exact Hq]|]. split; [exact Ht|].
+    apply (table_adj_pos c n o (S k)); [exact Hn|lia|]. apply (ents_In c n o Hn); [lia|exact Hq].
+  Qed.
+
+  Lemma table_noext : forall k, (1 <= k)%nat -> forall e', In e' (ents tab (S k)) -> last_special (tl (e_gram e')) = false.
+  Proof.
+    intros k Hk e' He'. destruct (In_ents c n o Hn (S k) e' ltac:(lia) He') as [_ [Hg _]].
+    destruct (gram_event c n Hn (S k) _ ltac:(lia) Hg) as [e0 [He0 [Hl ->]]].
+    destruct e0 as [|x t]; [simpl in Hl; lia|]. cbn [firstn tl].
+    pose proof (events_tl_ok c (x :: t) He0) as Hok. cbn [tl] in Hok.
+    destruct t as [|y t']; [simpl in Hl; lia|]. destruct k; [lia|]. cbn [firstn]. unfold last_special. cbn [hd].
+    inversion Hok as [|? ? [H1 H2] _]; subst. apply orb_false_iff. split; apply N.eqb_neq; assumption.
+  Qed.
+
+  Lemma table_noprune : forall k, (1 <= k)%nat -> (k < n)%nat -> hash_mode o (S k) = false -> forall e, In e (ents tab k) -> e_marked e = false.
+  Proof.
+    intros k Hk Hkn Hhm e He. destruct (In_ents c n o Hn k e Hk He) as [_ [Hg Ee]]. rewrite Ee. cbn [sp e_marked].
+    unfold hash_mode in Hhm. apply orb_false_iff in Hhm. destruct Hhm as [Hlim Hthr].
+    assert (Hl : o_limit o = None) by (destruct (o_limit o); [discriminate|reflexivity]).
+    apply N.ltb_ge in Hthr. pose proof (Hmono k (S k) ltac:(lia) ltac:(lia)) as Hm.
+    unfold marked. destruct (special1 (e_gram e)) eqn:Es; [reflexivity|]. rewrite (no_limit_no_pruned o _ Hl), orb_false_r.
+    apply N.leb_gt. assert (Ht : (1 <= tcount ev (e_gram e))%N).
+    { apply In_grams in Hg. destruct Hg as [[-> [Eg|Eg]]|[e0 [He0 [Hl0 Eg]]]]; [rewrite Eg in Es; discriminate Es|rewrite Eg in Es; discriminate Es|].
+      unfold tcount, lenN. rewrite Eg, firstn_length. replace (Nat.min k (length e0)) with k by lia.
+      assert (Hin : In e0 (filter (fun x => geqb (firstn k x) (firstn k e0)) ev)) by (apply filter_In; split; [exact He0|apply geqb_refl]).
+      destruct (filter _ ev); [destruct Hin|simpl; lia]. }
+    unfold ev in *. lia.
+  Qed.
+
+  Lemma table_backoffs : forall ds k, (1 <= k <= n)%nat ->
+    backoffs_impl n o tab ds k = map (fun e => backoff n tab ds k (e_gram e)) (filter kept (ents tab k)).
+  Proof.
+    intros ds k Hk. apply (backoffs_impl_spec n o tab ds k); [lia|apply table_good; assumption|apply table_sorted; exact Hk| | |].
+    - intros Hkn. apply table_ext; lia.
+    - apply table_noext. lia.
+    - intros Hkn. apply table_noprune; lia.
+  Qed.
+End TableJoin.
+
 Theorem pipeline_refines_spec : forall (c : corpus) (n : nat) (o : options),
   c <> [] -> (1 <= n)%nat -> thr_mono o n -> (forall k, (thr o k < MAX64)%N) ->
   kn_pipeline c n o = lift_result (kn_spec c n o).
@@ -36,7 +143,8 @@ Proof.
   intros c n o Hc Hn Hmono Hthr. unfold kn_pipeline, kn_spec, finish, finish_with.
   rewrite (adjust_counts_refines_spec c n o Hn Hthr).
   destruct (all_discounts (o_fallback o) 1 (map order_stat (table n o (events c)))) as [ds|k]; [|reflexivity].
-  rewrite (interp_orders_spec n (table n o (events c)) ds (o_interp_uni o) (table_good c n o Hc Hn Hmono) (table_length n o (events c))).
+  rewrite (interp_orders_spec n (table n o (events c)) ds (o_interp_uni o) o (table_good c n o Hc Hn Hmono) (table_length n o (events c))).
   - reflexivity.
   - intros k e Hk He. apply (table_adj_pos c n o k e Hn Hk He).
+  - intros k Hk. apply table_backoffs; assumption.
 Qed.
